@@ -57,6 +57,18 @@ CHECKS = {
         note="Premise L*U = A comes from C03 (partial there). Trusted: Coq kernel, extraction, harness, Zp class.",
         technique="Coq proof (induction over substitution rows, any field) + exact-field differential tie",
         ref="6 C04"),
+    "C08": dict(
+        text="Coq theorems by vm_compute over exact rationals on the five coefficient tables regenerated from /repo's "
+             "headers on every run (translator): conversion from implementation form (a_, c_, m_, e_) back to "
+             "(alpha_ij, gamma_ij, b, bhat), all Hairer-Wanner order conditions up to the documented order (2,3,4,3,4) "
+             "within 2^-40, the next order violated by > 1e-3 (so the order is exactly the documented one), embedded "
+             "order one lower, tabulated alpha_/gamma_ row sums consistent, |R(inf)| <= 2^-40 (2e-5 for the 4-stage set), "
+             "packed indices in range, default controls legal. The domain is finite, so this is a proof about the "
+             "tables the code contains now.",
+        note="PARTIAL: the sentence about global accuracy of Converged results is an empirical floating-point statement; "
+             "it is measured, not proved (see DESIGN 6 C08). Trusted: translator (dump_tables.cpp + params2coq.py), Coq kernel + vm_compute.",
+        technique="Coq proof by computation (vm_compute over Q) on tables regenerated from the source by a translator",
+        ref="6 C08"),
     "C19": dict(
         text="Coq theorems: every logical element of a dense matrix has its own in-range slot in every layout "
              "(injectivity + range for row-major and grouped, any L>0, any shape); the Axpy/ForEach loops visit exactly the "
